@@ -404,6 +404,17 @@ func runCheck(prop, tier string, nWorkers int, solverName, only, repo string, bu
 		te := time.Now()
 		before := d.states
 		d.stack = [][]Decision{{}}
+		if px := os.Getenv("VERIF_PREFIX"); px != "" {
+			// debugging aid: start the exploration from one given decision prefix
+			var pre []Decision
+			for _, f := range strings.Fields(px) {
+				n, _ := strconv.Atoi(f[1:])
+				dd := Decision{K: f[0], C: n, N: 2}
+				pre = append(pre, dd)
+			}
+			d.stack = [][]Decision{pre}
+			e.MaxRuns = 1
+		}
 		d.active = 0
 		d.stop = false
 		// fresh term tables and solver processes per entry (encoding options differ per entry)
